@@ -100,7 +100,7 @@ func c16Gen(tier string, emit func(any)) {
 			}
 		}
 	}
-	for _, l := range []string{"unparseable-source", "rewrite-error", "unparseable-result", "missing-path", "missing-path-abs", "missing-path-abs-slash", "missing-path-abs-dots", "missing-path-abs-dotdot", "missing-dir-rel-dots", "missing-patch", "patch-is-directory", "malformed-patch", "missing-patches-file", "patches-file-names-missing-patch"} {
+	for _, l := range []string{"unparseable-source", "rewrite-error", "unparseable-result", "missing-path", "missing-path-abs", "missing-path-abs-slash", "missing-path-abs-dots", "missing-path-abs-dotdot", "missing-dir-rel-dots", "missing-patch", "patch-is-directory", "malformed-patch", "missing-patches-file", "patches-file-names-missing-patch", "patches-file-unterminated-names-missing-patch", "patches-file-unterminated-names-malformed-patch"} {
 		for n := 1; n <= 3; n++ {
 			for pos := 0; pos < n; pos++ {
 				emit(&C16Case{Family: "logical", Logical: l, Kinds: make([]string, n), Position: pos})
@@ -630,6 +630,15 @@ func c16Logical(env *core.Env, c *C16Case) core.Outcome {
 	case "missing-patches-file":
 		args = []string{"-P", filepath.Join(root, "nolist.txt")}
 		wantInStderr = []string{"nolist.txt", "no such file or directory"}
+	case "patches-file-unterminated-names-missing-patch": // the last line of the list has no newline
+		tree["list.txt"] = filepath.Join(root, "p.patch") + "\n" + filepath.Join(root, "gone.patch")
+		args = []string{"-P", filepath.Join(root, "list.txt")}
+		wantInStderr = []string{"gone.patch", "no such file or directory"}
+	case "patches-file-unterminated-names-malformed-patch":
+		tree["bad.patch"] = "@@\nvar x foo\n@@\n-a\n+b\n"
+		tree["list.txt"] = filepath.Join(root, "p.patch") + "\n\n" + filepath.Join(root, "bad.patch")
+		args = []string{"-P", filepath.Join(root, "list.txt")}
+		wantInStderr = []string{"bad.patch"}
 	case "patches-file-names-missing-patch":
 		tree["list.txt"] = filepath.Join(root, "p.patch") + "\n" + filepath.Join(root, "gone.patch") + "\n"
 		args = []string{"-P", filepath.Join(root, "list.txt")}
